@@ -109,6 +109,13 @@ func (r *BindRequestReconciler) Reconcile(ctx context.Context, req ctrl.Request)
 		return result, nil
 	}
 
+	if isTerminallyFailed(bindRequest) {
+		// The scheduler already treats this request as failed: it no longer reserves the node's
+		// resources for the pod and is about to delete the request. Binding now could oversubscribe the node.
+		logger.Info("BindRequest has failed and will not be retried", "name", req.NamespacedName)
+		return result, nil
+	}
+
 	defer func() {
 		var finalError error
 		if r := recover(); r != nil {
@@ -221,6 +228,15 @@ func (r *BindRequestReconciler) deleteHandler(ctx context.Context, event event.T
 			}
 		}
 	}
+}
+
+// isTerminallyFailed mirrors the scheduler's view of a failed BindRequest (bindrequest_info.IsFailed)
+func isTerminallyFailed(bindRequest *schedulingv1alpha2.BindRequest) bool {
+	if bindRequest.Status.Phase != schedulingv1alpha2.BindRequestPhaseFailed {
+		return false
+	}
+	return bindRequest.Spec.BackoffLimit == nil ||
+		bindRequest.Status.FailedAttempts >= *bindRequest.Spec.BackoffLimit
 }
 
 func (r *BindRequestReconciler) UpdateStatus(
